@@ -245,8 +245,13 @@ def check(cx):
                     if t["t"] == "switch" and t.get("ty") == "bool":
                         l = op_local(t["o"])
                         cl = fi.dep_closure(l) | {l}
-                        reads_flag = any(st["dst"][0] in cl and st["rv"].get("r") == "ref" and any(isinstance(pe, str) and pe.startswith(".was_") for pe in st["rv"]["p"][1:])
-                                         for b in fi.blocks for st in b["stmts"])
+                        opl = t["o"].get("c") or t["o"].get("m") or []
+                        reads_flag = any(isinstance(pe, str) and pe.startswith(".was_") for pe in opl[1:]) or \
+                            any(st["dst"][0] in cl and (
+                                (st["rv"].get("r") == "ref" and any(isinstance(pe, str) and pe.startswith(".was_") for pe in st["rv"]["p"][1:])) or
+                                (st["rv"].get("r") == "use" and any(isinstance(pe, str) and pe.startswith(".was_")
+                                                                     for pe in (st["rv"]["o"][0].get("c") or st["rv"]["o"][0].get("m") or [])[1:])))
+                                for b in fi.blocks for st in b["stmts"])
                         if reads_flag:
                             flag_sw = (b_, t)
                             break
